@@ -11,7 +11,7 @@ import asyncio
 
 from vlib.common import NCPU, Run, Shard, describe_exc, rng, run_shards
 
-POLL = 0.1
+from vlib.libconst import poll
 
 
 class Responder:
@@ -130,6 +130,7 @@ def scenario(sh: Shard, seed, idx, regime):
         sh.evaluations += 1
         T_INIT, T_MAX = GeckoConfig.DISCOVERY_INITIAL_TIMEOUT_IN_SECONDS, GeckoConfig.DISCOVERY_TIMEOUT_IN_SECONDS
         late = REGIMES[regime][0]
+        POLL = poll()
         slack = 2 * POLL + 3 * late + w.loop.vsel.injected_stalls + 0.02
         t0, t1 = out["t0"], out["t1"]
         dur = t1 - t0
